@@ -43,7 +43,7 @@ def exec (c : Cfg) (anchor : St) (p : Prog Int) : Cfg :=
   match runP p c.st with
   | (s, .inl code) => { c with st := s.emit (.ret code) }
   | (s, .inr (cb, m, e, k)) =>
-    { st := s.emit (.invoke cb.name m e), stack := { k := k, evts := e, anchor := anchor, susp := s } :: c.stack }
+    { st := s.emit (.invoke cb m e), stack := { k := k, evts := e, anchor := anchor, susp := s } :: c.stack }
 
 /-- the program of an API line -/
 def apiProg (c : Cfg) : Op → Prog Int
